@@ -458,6 +458,13 @@ impl C03 {
         add("sixel-colour-select", "sixel", "", vec![lit(b"#"), Part::B, lit(b"~#"), Part::B, lit(b";2;"), Part::B, lit(b";"), Part::B, lit(b";"), Part::B, lit(b"~")]);
         add("sixel-colour-hls", "sixel", "", vec![lit(b"#1;1;"), Part::B, lit(b";"), Part::B, lit(b";"), Part::B, lit(b"~")]);
         add("sixel-many-newlines", "sixel", "", vec![lit(b"!"), Part::B, lit(b"-~")]);
+        // the colour register alone is the big number: selection, RGB and HLS definition, directly and through the terminal
+        add("sixel-register-select", "sixel", "", vec![lit(b"#"), Part::B, lit(b"~~")]);
+        add("sixel-register-rgb", "sixel", "", vec![lit(b"#"), Part::B, lit(b";2;50;60;70~~")]);
+        add("sixel-register-hls", "sixel", "", vec![lit(b"#"), Part::B, lit(b";1;120;50;100~~")]);
+        add("sixel-register-hls-all", "sixel", "", vec![lit(b"#"), Part::B, lit(b";1;"), Part::B, lit(b";"), Part::B, lit(b";"), Part::B, lit(b"~")]);
+        add("sixel-register-rgb", "stream", "", vec![lit(b"\x1bPq#"), Part::B, lit(b";2;50;60;70~~\x1b\\")]);
+        add("sixel-register-hls", "stream", "", vec![lit(b"\x1bPq#"), Part::B, lit(b";1;120;50;100~~\x1b\\")]);
         // --- avatar repeat (count is one byte: nothing to scale, absolute bound only)
         add("avatar-repeat", "stream", "avatar", vec![lit(b"\x19x\xff\x19\x19\xff\x16\x08\xff\xff\x19y\xff")]);
         // --- custom font DCS payloads and font files
@@ -752,7 +759,7 @@ impl Prop for C03 {
         "C03"
     }
     fn rule(&self) -> &'static str {
-        "a case is a template with numeric slots, executed with every slot at max(W,H)+1, 2^16, 10^6 and 2^31-1 on the real engine with the work counter (hook H1), the counting allocator and the nesting guard (H2) armed. Oracles: ticks <= 16(n+1)WH*max(W,H) for streams (64*65536*(n+1) for fonts/files, 4096(n+1) for sixel), peak live allocation <= 64MiB+4096n (512MiB for picture files: a file buffer may hold 65535 rows), nesting <= 16, cpu <= 2s, and saturation: ticks/peak at a larger magnitude <= 2x those at the smaller one. Templates: the complete CSI table (63 finals x 8 intermediates x parameter vectors of length 0..=6 over {0,1,size,BIG}) x 3 sizes x 3 prepared screens (quick: lengths <=3 complete + sample), the same table with top/bottom margins set and with top/bottom + left/right margins + origin mode set (parameter vectors of length <=2 quick / <=4 thorough), the same table (parameter vectors of length <=2 quick / <=3 thorough) as the content of an .ans file loaded with Buffer::from_bytes (a file buffer does not clamp the cursor to a screen), margins/rectangles/tab/colour functions, DCS macro definitions (text, hex repeat groups, self/mutual recursion with fan-out 1..=16, doubling chains), sixel raster/repeat headers (through the terminal and directly), Avatar repeat, CTerm:Font / PSF1 / PSF2 header fields, Tundra position records (big-endian row / column), every decimal number written in a text seed file of the loader corpus (palette files: counts and components; ans / pcb / an1 / asc: CSI parameters and colour codes; up to 150 per seed). distinct_nontrivial = distinct (family, screen, size, log2 tick profile over the magnitudes) fingerprints"
+        "a case is a template with numeric slots, executed with every slot at max(W,H)+1, 2^16, 10^6 and 2^31-1 on the real engine with the work counter (hook H1), the counting allocator and the nesting guard (H2) armed. Oracles: ticks <= 16(n+1)WH*max(W,H) for streams (64*65536*(n+1) for fonts/files, 4096(n+1) for sixel), peak live allocation <= 64MiB+4096n (512MiB for picture files: a file buffer may hold 65535 rows), nesting <= 16, cpu <= 2s, and saturation: ticks/peak at a larger magnitude <= 2x those at the smaller one. Templates: the complete CSI table (63 finals x 8 intermediates x parameter vectors of length 0..=6 over {0,1,size,BIG}) x 3 sizes x 3 prepared screens (quick: lengths <=3 complete + sample), the same table with top/bottom margins set and with top/bottom + left/right margins + origin mode set (parameter vectors of length <=2 quick / <=4 thorough), the same table (parameter vectors of length <=2 quick / <=3 thorough) as the content of an .ans file loaded with Buffer::from_bytes (a file buffer does not clamp the cursor to a screen), margins/rectangles/tab/colour functions, DCS macro definitions (text, hex repeat groups, self/mutual recursion with fan-out 1..=16, doubling chains), sixel raster/repeat headers and colour registers (selection, RGB and HLS definition; through the terminal and directly), Avatar repeat, CTerm:Font / PSF1 / PSF2 header fields, Tundra position records (big-endian row / column), every decimal number written in a text seed file of the loader corpus (palette files: counts and components; ans / pcb / an1 / asc: CSI parameters and colour codes; up to 150 per seed). distinct_nontrivial = distinct (family, screen, size, log2 tick profile over the magnitudes) fingerprints"
     }
     fn meta(&self, _ctx: &Ctx) -> Value {
         json!({"floor_evaluations": 5000, "floor_distinct": 300, "watchdog_s": 60, "watchdog_is_violation": true, "plain_pass": "quick",
